@@ -9,7 +9,7 @@ and two molecules that the reference enumerator (oracles/iso.py) finds non-isomo
 The two documented gaps are decided by oracles/o01_gaps.py (orbits of the stereo-free graph) and only counted (`gap_hits`).
 """
 import itertools
-import math
+import random
 
 from vlib import env
 from vlib.report import pmap
@@ -18,21 +18,12 @@ RULE = ('non-trivial = molecule with >= 2 atoms for which a relation produced a 
         'reference one (non-identity numbering / insertion order, or a text different from the canonical text); keys are '
         '(canonical string, relation)')
 
-RELS = ('renumber+insertion', 'remap', 'respell-chython', 'respell-rdkit')
-
-
 # ---- comparison -----------------------------------------------------------------------------------------------------------
 
 def _h(text):
     """short stable tag: keeps replay file names of keys that differ only in punctuation apart"""
     import hashlib
     return hashlib.md5(text.encode()).hexdigest()[:6]
-
-
-def _canon(m):
-    from bounded import domains as D
-    D.norm(m)
-    return str(m)
 
 
 def _differs(m, m0, s0, h0):
@@ -196,6 +187,7 @@ def _atlas_worker(job):
     res = []
     for rec in recs:
         r = D.rnd(f'{tag}:{rec["id"]}')
+        random.seed(f'{env.SEED}:{tag}:{rec["id"]}')  # the library's random writer draws from the global generator
         m0, dropped0 = G.build_rec(rec)
         D.norm(m0)
         n = len(rec['atoms'])
@@ -211,16 +203,12 @@ def _corpus_worker(job):
     res = []
     for text in texts:
         r = D.rnd(f'{tag}:{text}')
+        random.seed(f'{env.SEED}:{tag}:{text}')
         m0 = D.parse(text)
         rec = G.rec_of(m0, text)
         ncases, keys, gap, bad, info = _check_molecule(text, m0, rec, [None] * n_perm, 1, n_r, n_rd, r, rd_source=text)
         res.append((text, str(m0), ncases, keys, gap, bad, info, _n_labels(m0)))
     return res
-
-
-def _chunks(items, n):
-    k = max(1, math.ceil(len(items) / n))
-    return [items[i:i + k] for i in range(0, len(items), k)]
 
 
 # ---- driver ---------------------------------------------------------------------------------------------------------------
@@ -254,7 +242,7 @@ def bounded(run):
     by_id = {rec['id']: rec for rec in recs}
     run.bound(f'decorated graph atlas: every connected graph <= {max_nodes} nodes, max degree 4, {trials} seeded decorations (2x for trees) '
               f'+ charge/isotope/radical variants + spectator components + every 2^k labelling (k <= 4) of the stereo elements chython '
-              f'perceives: {len(recs)} valence-valid molecules incl. {len(G.SPECIAL_SMILES)} hand-written ones')
+              f'perceives (atlas part: valence-valid only) + pairs of spectator ions + {len(G.SPECIAL_SMILES)} hand-written molecules: {len(recs)} molecules')
     run.bound(f'atlas permutations: all n! numberings for n <= {full_limit} (n <= 5 when the molecule carries stereo labels), {k_seeded} seeded '
               f'numberings above; each with a seeded atom / bond insertion order and bond direction; + 1 remap(); 3 chython random '
               f'spellings; 2 RDKit random spellings')
